@@ -148,6 +148,7 @@ type wSess struct {
 	stopped bool // write loop has exited
 	pause   atomic.Bool
 	needClean atomic.Bool // server stopped the session: cleanUp is due on the dispatching goroutine
+	lazy      atomic.Bool // "lazy": the write loop gets round to detach notices 20 ms late (a busy connection)
 	abandoned atomic.Bool // the client stopped polling ("abandon"): the harness no longer refreshes lastTouched
 	mu      sync.Mutex
 }
@@ -512,6 +513,25 @@ func (ss *wSess) loop() {
 			case tp := <-s.detach:
 				s.delSub(tp)
 			case <-time.After(50 * time.Millisecond):
+			}
+			continue
+		}
+		if ss.lazy.Load() {
+			// a write loop which is busy writing takes what is queued for it in no particular order: here
+			// the detach notices of its topics wait 20 ms while messages and requests go on
+			select {
+			case m, ok := <-s.send:
+				if !ok {
+					return
+				}
+				ss.record(m)
+			case m := <-s.stop:
+				ss.onStop(m)
+				return
+			case <-time.After(20 * time.Millisecond):
+				for n := len(s.detach); n > 0; n-- {
+					s.delSub(<-s.detach)
+				}
 			}
 			continue
 		}
